@@ -47,8 +47,9 @@ Scope decisions (DESIGN section 6, C04/C05) enforced by `scope_violation(ast)`:
       (that is C20's fault class); every ring is closed;
     * multiplied nodes carry no ring markers (there is no documented position for them next to |n);
     * a multiplied branch is the only branch of its anchor (the docs do not say what is repeated otherwise),
-      its anchor has no multiplier of its own, and neither the anchor nor the branch content carries ring
-      markers -- except when `allow_ring_in_unit` is set, then rings that open AND close inside one unit are
+      its anchor has no multiplier of its own (except with `allow_mult_anchor` and a flat branch: `[#A]|m(...)|n` is
+      then `[#A]` written out m times with the multiplied branch on the last copy, see expand), and neither the
+      anchor nor the branch content carries ring markers -- except when `allow_ring_in_unit` is set, then rings that open AND close inside one unit are
       allowed (the longhand is then unambiguous: every copy has its own ring);
     * no whitespace, no '+', nothing after a '(' but a node token.
 """
@@ -168,7 +169,7 @@ def expand(ast):
     bonded with the default order, the last one keeps the branches); `[#A](...)x|n` becomes n copies of
     anchor+branch in a row, the first keeps the anchor's incoming symbol, copy i+1 is attached to the anchor of
     copy i with the symbol x.  What follows in the chain attaches to the last copy (that is simply the next
-    element of the chain).
+    element of the chain).  `[#A]|m(...)x|n`: both rules in that order - m-1 nodes A, then n copies of A+branch.
     """
     out = []
     for n in ast:
@@ -176,15 +177,21 @@ def expand(ast):
         base = {'name': n['name'], 'ann': n['ann'], 'attrs': dict(n['attrs']), 'in': n['in'],
                 'rings': [list(r) for r in n['rings']], 'mult': None, 'br': []}
         if n['mult'] is not None:
-            for i in range(n['mult']):
+            multiplied_branch = len(brs) == 1 and brs[0]['mult'] is not None
+            for i in range(n['mult'] - (1 if multiplied_branch else 0)):
                 c = copy_ast([base])[0]
                 if i > 0:
                     c['in'] = ''
                 out.append(c)
-            # branches belong to the last copy
-            if n['mult'] >= 1:
-                out[-1]['br'] = [{'chain': b['chain'], 'mult': None, 'inter': ''} for b in brs]
-            continue
+            if not multiplied_branch:
+                # branches belong to the last copy
+                if n['mult'] >= 1:
+                    out[-1]['br'] = [{'chain': b['chain'], 'mult': None, 'inter': ''} for b in brs]
+                continue
+            # `[#A]|m(...)x|n`: the node multiplier written out gives m nodes A, the branch is anchored on the last of
+            # them; that last copy is the anchoring node of the multiplied branch and is handled below like any anchor
+            if n['mult'] > 1:
+                base['in'] = ''
         if len(brs) == 1 and brs[0]['mult'] is not None:
             b = brs[0]
             for i in range(b['mult']):
@@ -287,8 +294,9 @@ def _unit_rings_closed(anchor):
     return all(c == 2 for c in count.values())
 
 
-def scope_violation(ast, max_depth=3, allow_ring_in_unit=False, _depth=0):
-    """None if the AST is inside the documented grammar and the scope decisions, else a reason."""
+def scope_violation(ast, max_depth=3, allow_ring_in_unit=False, _depth=0, allow_mult_anchor=False):
+    """None if the AST is inside the documented grammar and the scope decisions, else a reason.
+    allow_mult_anchor: admit `[#A]|m(...)|n` when the branch content is flat (C05's multiplied-anchor family)."""
     for i, n in enumerate(ast):
         if _depth == 0 and i == 0 and n['in'] != '':
             return 'symbol before the first node'
@@ -324,13 +332,14 @@ def scope_violation(ast, max_depth=3, allow_ring_in_unit=False, _depth=0):
                 if len(n['br']) != 1:
                     return 'multiplied branch on an anchor with several branches'
                 if n['mult'] is not None:
-                    return 'multiplied anchor of a multiplied branch'
+                    if not allow_mult_anchor or n['mult'] < 1 or any(m['br'] or m['mult'] is not None for m in b['chain']):
+                        return 'multiplied anchor of a multiplied branch'
                 if b['mult'] < 1:
                     return 'multiplier < 1'
                 if n['rings'] or any(True for _ in _markers_in(b['chain'])):
                     if not allow_ring_in_unit or not _unit_rings_closed(n):
                         return 'ring marker inside a multiplied unit'
-            r = scope_violation(b['chain'], max_depth, allow_ring_in_unit, _depth + 1)
+            r = scope_violation(b['chain'], max_depth, allow_ring_in_unit, _depth + 1, allow_mult_anchor)
             if r:
                 return r
     if _depth == 0:
@@ -777,6 +786,36 @@ def c05_annotated_recipes(max_tokens, max_depth=3, branch_in_unit=False):
                         yield {'skel': skel, 'mult': mult, 'ann': [[m, a]]}
 
 
+def c05_multiplied_anchor_recipes(max_tokens, max_depth=3, counts=(2, 3), max_nondefault=1):
+    """`[#A]|m(...)|n`: a multiplied node directly followed by a multiplied FLAT branch (no branch and no multiplier
+    inside the branch).  Every skeleton x every such anchor x counts m, n x every assignment of at most max_nondefault
+    bond symbols (incoming symbols, the symbol between ')' and '|'), and one annotation on the anchor / on the first node
+    of the branch.  Needs allow_mult_anchor in scope_violation."""
+    for k in range(2, max_tokens + 1):
+        for skel in skeleton_shapes(k, max_depth):
+            base = skeleton_to_ast(skel)
+            flat = flat_nodes(base)
+            for kind, i in multiplier_sites(base):
+                if kind != 'branch' or any(m['br'] for m in flat[i]['br'][0]['chain']):
+                    continue
+                probe = build({'skel': skel, 'mult': [['node', i, 2, ''], ['branch', i, 2, '']]})
+                if scope_violation(probe, max_depth, allow_mult_anchor=True) is not None:
+                    continue
+                for m, n in itertools.product(counts, repeat=2):
+                    mult = [['node', i, m, ''], ['branch', i, n, '']]
+                    for assign in symbol_assignments(k, max_nondefault):
+                        yield {'skel': skel, 'in': list(assign[:k - 1]), 'mult': [mult[0], ['branch', i, n, assign[k - 1]]]}
+                    for a in (0, 8):
+                        yield {'skel': skel, 'mult': mult, 'ann': [[i, a]]}
+                        yield {'skel': skel, 'mult': mult, 'ann': [[i + 1, a]]}
+
+
+def multiplied_anchor_of_multiplied_branch(chain):
+    """some node with |m anchors a branch with |n"""
+    return any(any((b['mult'] is not None and n['mult'] is not None) or multiplied_anchor_of_multiplied_branch(b['chain'])
+                   for b in n['br']) for n in chain)
+
+
 def c05_ring_in_unit_recipes(max_tokens, max_depth=3):
     """a multiplied flat branch whose unit (anchor + branch) contains one ring that opens and closes inside the
     unit (needs allow_ring_in_unit in scope_violation)"""
@@ -867,7 +906,9 @@ def denote_size(ast):
         t = 0
         for n in chain:
             inner = sum(size(b['chain']) for b in n['br'])
-            if n['mult'] is not None:
+            if n['mult'] is not None and len(n['br']) == 1 and n['br'][0]['mult'] is not None:
+                t += n['mult'] - 1 + n['br'][0]['mult'] * (1 + inner)
+            elif n['mult'] is not None:
                 t += n['mult'] + inner
             elif len(n['br']) == 1 and n['br'][0]['mult'] is not None:
                 t += n['br'][0]['mult'] * (1 + inner)
